@@ -192,7 +192,7 @@ def _child_c04(unit: dict) -> dict:
             return paths
 
         def args_for(paths, folder, out, models):
-            a = {"command": "pv2puml", "job_name": "x",
+            a = {"command": "pv2puml", "job_name": job_name,
                  "group_by_job": False, "mapping_config_file": None,
                  "input_puml_models": models, "output_puml_models": True,
                  "output_file_directory": out, "debug": False}
@@ -204,6 +204,8 @@ def _child_c04(unit: dict) -> dict:
                 a["file_paths"] = paths
             return a
 
+        job_name = unit.get("job_name", "x")
+        file_name = job_name.replace(" ", "_")
         use_folder = bool(unit.get("use_folder"))
         base = dict(clock_origin_s=unit.get("clock_origin_s", 1704067200),
                     clock_tick_us=unit.get("clock_tick_us", 1000))
@@ -242,7 +244,7 @@ def _child_c04(unit: dict) -> dict:
             if st["status"] != "ok":
                 break
             probes["loaded_events"] += st["probes"]["loaded_events"]
-            model = os.path.join(out_j, "x_model.json")
+            model = os.path.join(out_j, file_name + "_model.json")
             # oracle (2): the file round-trips the in-memory model
             if os.path.exists(snap) and os.path.exists(model):
                 a = json.load(open(snap))
@@ -261,17 +263,17 @@ def _child_c04(unit: dict) -> dict:
         if roundtrip_detail:
             rec["roundtrip_detail"] = json.dumps(roundtrip_detail)[:1500]
         if ref["status"] == "ok":
-            t = open(os.path.join(out_all, "x.puml")).read()
+            t = open(os.path.join(out_all, file_name + ".puml")).read()
             rec["ref_text"] = t
             rec["ref"] = _analyse(t)
             rec["ref_model"] = model_canon_from_file(
-                os.path.join(out_all, "x_model.json"))
+                os.path.join(out_all, file_name + "_model.json"))
         if step_status and all(s == "ok" for s in step_status):
-            t = open(os.path.join(out_j, "x.puml")).read()
+            t = open(os.path.join(out_j, file_name + ".puml")).read()
             rec["fin_text"] = t
             rec["fin"] = _analyse(t)
             rec["fin_model"] = model_canon_from_file(
-                os.path.join(out_j, "x_model.json"))
+                os.path.join(out_j, file_name + "_model.json"))
         rec["status"] = "ok"
         return rec
     finally:
